@@ -66,13 +66,17 @@ LastWord(run, k) ==
         ELSE LET m == CHOOSE i \in idx : \A j \in idx : j <= i
              IN  IF Has(run.steps[m].out, "Disconnected:" \o k) THEN "Disconnected" ELSE "Setup"
 SetUp(run, j) == \E i \in 1..Len(run.steps) : run.steps[i].a.a = "Setup" /\ run.steps[i].a.i = j
+Ended(run, j) == \E i \in 1..Len(run.steps) : run.steps[i].a.a = "Closed" /\ run.steps[i].a.i = j
 JudgeEnd(run) ==
     IF Len(run.steps) = 0 THEN {}
     ELSE LET fin == run.steps[Len(run.steps)].svc
              b1 == {<<"C11", "disconnected-is-last-word-while-set-up-connection-registered", k>> :
                       k \in {k \in Skis : LastWord(run, k) = "Disconnected" /\ fin[k].reg # 0 /\ SetUp(run, fin[k].reg)}}
+             \* ("after things settle": a connection object that set the device up and has not ended yet - e.g. one replaced in the
+             \*  registry whose close is still under way - will still say its last word)
              b2 == {<<"C11", "setup-is-last-word-while-nothing-registered", k>> :
-                      k \in {k \in Skis : LastWord(run, k) = "Setup" /\ fin[k].reg = 0}}
+                      k \in {k \in Skis : LastWord(run, k) = "Setup" /\ fin[k].reg = 0
+                                           /\ \A j \in 1..Len(NewConnSteps(run)) : (SkiOfConn(run, j) = k /\ SetUp(run, j)) => Ended(run, j)}}
          IN  b1 \cup b2
 
 \* C18: delayed notifications.  stored: details in store order; late: delivery order; both carry the detail's identity
